@@ -33,6 +33,10 @@ type c03Case struct {
 	ACSEmpty  bool   `json:"acs_empty,omitempty"` // the stored consumer URL is empty (response returned in the body)
 	// history: a second stored request for another user shape is called back first on the same provider
 	Earlier string `json:"earlier,omitempty"`
+	// Env: environment deviation at the callback — "entity-lookup-fails" (GetEntityIDByAppID errors while the stored request
+	// records an alias spelling of the SP's entity ID as its issuer), "application-unregistered" (the application has no entity
+	// any more), "application-reassigned" (the application now belongs to another entity ID)
+	Env string `json:"env,omitempty"`
 }
 
 // user record shapes: std attributes set/unset, 0-2 custom attributes x 0-2 values x friendly/format set/unset
@@ -82,6 +86,7 @@ func (c c03Case) labels() []string {
 	add("metadata-endpoint", c.MetaEp)
 	add("user", c.UserShape)
 	add("earlier-callback-for", c.Earlier)
+	add("env", c.Env)
 	if c.RealClock {
 		l = append(l, "real-clock")
 	}
@@ -123,6 +128,20 @@ func c03Judge(c c03Case, checkIDs bool) c03Verdict {
 		w.Store.Complete(r.ID, "u-earlier")
 		callbackReq(w, t.Host, r.ID)
 	}
+	mustFail := false
+	switch c.Env {
+	case "entity-lookup-fails":
+		w.Store.Request(t.StoredID).Issuer = t.Entity + "/" // what an alias-tolerant storage records for a request that spelled it so
+		w.Store.FaultAt("GetEntityIDByAppID", 1, world.FaultError)
+	case "application-unregistered":
+		w.Store.Request(t.StoredID).Issuer = t.Entity
+		w.Store.RemoveApp("app-a")
+		mustFail = true
+	case "application-reassigned":
+		w.Store.Request(t.StoredID).Issuer = t.Entity
+		w.Store.SetAppEntity("app-a", "https://sp-moved.example/metadata")
+		t.Entity = "https://sp-moved.example/metadata"
+	}
 	t0 := time.Now().UTC()
 	rep, m := cbRun(w, t)
 	t1 := time.Now().UTC()
@@ -130,6 +149,18 @@ func c03Judge(c c03Case, checkIDs bool) c03Verdict {
 	if rep.Panic != "" {
 		v.Class = "blocked_by_panic"
 		return v
+	}
+	if c.Env == "entity-lookup-fails" || mustFail {
+		// a refusal is the expected outcome; a Success is judged below like any other (audience = registered entity)
+		if !m.Success() || m.Response() == nil {
+			v.Class = "non-success-under-env:" + m.Kind
+			return v
+		}
+		if mustFail {
+			v.Class = "success:" + m.Kind
+			v.Clauses = append(v.Clauses, "success-although-the-application-has-no-registered-entity")
+			return v
+		}
 	}
 	if !m.Success() || m.Response() == nil {
 		v.Class = "non-success:" + m.Kind
@@ -237,7 +268,7 @@ func init() { Registry["C03"] = runC03 }
 func runC03(ctx Ctx) int {
 	world.PinClock()
 	run := ev.NewRun("C03")
-	run.Rule = "stored-request fields (request ID, consumer URL, RelayState, audience entity) and user-record fields over the 16-symbol S_xml alphabet with <= 1 (quick) / <= 2 (thorough) fields off default, x 13 user-record shapes (each standard attribute unset, 0-2 custom attributes with 0-3 values, FriendlyName/NameFormat set/unset, name clashes) x {POST, Redirect} x 7 configurations (static / static with path / host-derived x 2 hosts / custom time format / custom metadata endpoint / rsa-sha1); pinned clock (exact instants) plus one real-clock pass; plus histories of two callbacks for different users on one provider. The reply is decoded by x/net/html / raw query splitting + the harness XML tree and compared field by field with a reference built from the records the storage served"
+	run.Rule = "stored-request fields (request ID, consumer URL, RelayState, audience entity) and user-record fields over the 16-symbol S_xml alphabet with <= 1 (quick) / <= 2 (thorough) fields off default, x 13 user-record shapes (each standard attribute unset, 0-2 custom attributes with 0-3 values, FriendlyName/NameFormat set/unset, name clashes) x {POST, Redirect} x 7 configurations (static / static with path / host-derived x 2 hosts / custom time format / custom metadata endpoint / rsa-sha1); pinned clock (exact instants) plus one real-clock pass; plus histories of two callbacks for different users on one provider; plus environment deviations at the callback (entity lookup fails while the stored request records an alias of the entity ID; application unregistered; application reassigned to another entity). The reply is decoded by x/net/html / raw query splitting + the harness XML tree and compared field by field with a reference built from the records the storage served"
 	run.Assume = []string{"order between attributes is not claimed (custom attributes live in a Go map); order within a value list is", "the lifetime is the library default of 5 minutes (not configurable through an exported option)"}
 	if ctx.Replay != "" {
 		var c c03Case
@@ -295,6 +326,13 @@ func runC03(ctx Ctx) int {
 			cases = append(cases, c03Case{Binding: b, Earlier: e, ACSEmpty: true})
 		}
 		cases = append(cases, c03Case{Binding: b, ACSEmpty: true})
+		for _, env := range []string{"entity-lookup-fails", "application-unregistered", "application-reassigned"} {
+			for _, cfg := range configs {
+				c := cfg
+				c.Binding, c.Env = b, env
+				cases = append(cases, c)
+			}
+		}
 	}
 	deadline := devx.Deadline(map[string]time.Duration{"quick": 5 * time.Minute, "thorough": 30 * time.Minute}[run.Tier])
 	// real-clock cases run alone (they un-pin the process-wide clock)
